@@ -50,6 +50,38 @@ DistinctInits(g) == \A i, j \in DOMAIN g.init : i # j => g.init[i] # g.init[j]
 
 Orbit(g, s) == {t \in Reach(g) : RepOf(g, t) = RepOf(g, s)}
 
+(* C12, timeouts.  A check with a timeout must stop within a bounded delay after expiry: the timeout thread polls
+   once per second, a worker notices at the end of its current block; 4 s of slack for a loaded machine. *)
+TimeoutDelayApplies(run) == run.cfg.timeout_ms > 0 /\ "expect_timeout" \in DOMAIN run.cfg /\ run.cfg.expect_timeout
+TimeoutDelayOK(run) == run.done.joined /\ run.done.wall_ms <= run.cfg.timeout_ms + 1000 + 4000
+(* an unexpired timeout changes neither results nor progress (ref_* = the same run without a timeout) *)
+TimeoutHarmlessApplies(run) == run.cfg.timeout_ms > 0 /\ "ref_wall_ms" \in DOMAIN run.done /\ run.done.ref_wall_ms > 0
+TimeoutHarmlessOK(run) ==
+  /\ run.done.joined
+  /\ run.done.unique = run.done.ref_unique
+  /\ (run.done.wall_ms <= 5 * run.done.ref_wall_ms \/ run.done.wall_ms <= run.done.ref_wall_ms + 2000)
+
+(* the decisions of the first simulation trace: the maximal prefix of the chooser log made with the first seed *)
+FirstTrace(log) ==
+  IF log = <<>> THEN <<>>
+  ELSE LET n == IF \E i \in DOMAIN log : log[i].seed_lo # log[1].seed_lo \/ (i > 1 /\ log[i].k = "init")
+                 THEN (CHOOSE i \in DOMAIN log : (log[i].seed_lo # log[1].seed_lo \/ (i > 1 /\ log[i].k = "init"))
+                                                  /\ \A j \in 1..(i - 1) : ~(log[j].seed_lo # log[1].seed_lo \/ (j > 1 /\ log[j].k = "init"))) - 1
+                 ELSE Len(log)
+       IN  [i \in 1..n |-> [k |-> log[i].k, state |-> log[i].state, n |-> log[i].n, picked |-> log[i].picked]]
+(* ... follow the model: the initial state is one of the in-boundary initial states; after choosing action a in
+   state s the next decision is made in succ[s][a], or -- if that action is ignored or leaves the boundary -- again
+   in s with one action fewer *)
+FirstTraceValid(g, tr) ==
+  /\ Len(tr) > 0 => (tr[1].k = "init" /\ tr[1].state \in InitB(g))
+  /\ \A i \in 2..Len(tr) : tr[i].k = "act"
+  /\ \A i \in 2..(Len(tr) - 1) :
+        LET s == tr[i].state  sl == SuccList(g, s) IN
+        /\ tr[i].n <= Len(sl) /\ tr[i].picked \in 1..tr[i].n
+        /\ \/ tr[i + 1].state \in Defined(g, s) /\ InB(g, tr[i + 1].state)     \* a step was taken
+           \/ tr[i + 1].state = s /\ tr[i + 1].n = tr[i].n - 1                 \* the chosen action was not taken
+  /\ Len(tr) >= 2 => tr[2].state = tr[1].state
+
 (* Each check is [a |-> antecedent holds for this run, c |-> a => consequent].      *)
 (* A check with a false antecedent says nothing about the run (vacuous); the judge   *)
 (* reports the set of failed checks and the set of applied (non-vacuous) ones.       *)
@@ -145,6 +177,14 @@ Checks(g, run) ==
                  \A i \in DOMAIN vis : Len(vis[i].path) <= cfg.target_depth),
     depth_min |-> Chk(a_dmin,
                  \A s \in reach : DepthIn(layers, s) < cfg.target_depth => s \in vn),
+    \* timeout: stops within a bounded delay after expiry (1 s poll of the timeout thread + one block + slack)
+    timeout_delay |-> Chk(TimeoutDelayApplies(run), TimeoutDelayOK(run)),
+    \* an unexpired timeout changes neither results nor progress (ref_* = the same run without timeout)
+    timeout_harmless |-> Chk(TimeoutHarmlessApplies(run), TimeoutHarmlessOK(run)),
+    \* a single-threaded simulation with a given seed replays the same first trace
+    seed_replay |-> Chk(sim /\ cfg.threads = 1 /\ Len(run.chooser2) > 0,
+                 FirstTrace(run.chooser) = FirstTrace(run.chooser2)),
+    first_trace |-> Chk(sim /\ cfg.threads = 1 /\ Len(run.chooser) > 0, FirstTraceValid(g, FirstTrace(run.chooser))),
     \* ---- C05 -------------------------------------------------------
     joined |-> Chk(TRUE, d.joined /\ ~d.spawn_panicked),
     \* ---- C10 -------------------------------------------------------
